@@ -159,7 +159,7 @@ def _run(ctx, r, idx, aw, bench, w):
 			return "clock generator is %s although %d clock-owning transceivers are running" % (
 				"running" if aw.gen.running else "stopped", len(owners_running()))
 		links = getattr(aw.gen, "clck_links", None)
-		if links is not None:
+		if links is not None and all(hasattr(bench.nodes[i].trx, "clck_if") for i in owners_running()):
 			want = {id(bench.nodes[i].trx.clck_if) for i in owners_running()}
 			if {id(l) for l in links} != want or len(links) != len(want):
 				return "clock link list holds %d links, %d clock-owning transceivers are running" % (len(links), len(want))
